@@ -130,6 +130,7 @@ def poolStep (s : St) (ws : List String) : St × String :=
   | ["final"] => (s, poolFinal s)
   | ["inv"] => (s, "inv:" ++ joinWith "," (safeCheck s))
   | ["life"] => (s, "life:" ++ joinWith "," (lifeCheckAll s))
+  | ["live"] => (s, "live:" ++ joinWith "," (liveCheck s ++ (if stuck s then ["STUCK"] else [])))
   | _ => (s, "bad-op")
 
 def poolMachine : Machine :=
